@@ -288,6 +288,8 @@ def run(ctx):
     for attr in ("_local_key", "_local_key_expiration"):
         st = stores_to(prog, V3, attr)
         ctx.count("state_stores", len(st))
+        # (dropping the session - `self._local_key = None` in a deauthenticate / reset method - grants nothing: only stores of a value count)
+        st = [(f_, n_) for f_, n_ in st if f_.name in ("__init__", pa.name) or not (isinstance(n_, ast.Assign) and isinstance(n_.value, ast.Constant) and n_.value.value is None)]
         owners = store_owners(prog, st)
         ok = set(owners) <= {f"{V3}.__init__", pa.qual}
         ctx.ob("C06.b", V3, ok, f"self.{attr} is written only by __init__ and authenticate", func=V3, file=file, construct=f"stores to {attr}",
